@@ -327,6 +327,9 @@ def real_cases(tier):
     cs.append({"kind": "cat", "text": "plain ascii bytes\n", "mode": "bytes"})
     cs.append({"kind": "cat", "text": "héllo", "mode": "bytes"})          # F-C13 on the real runner
     cs.append({"kind": "respond"})
+    cs.append({"kind": "respond-no-newline"})     # a response without a line end must still arrive
+    cs.append({"kind": "open-pipe", "buffered": False})   # input not at EOF, no line end: delivered, not held back
+    cs.append({"kind": "open-pipe", "buffered": True})    # same through a buffered text stream (F-C13b)
     cs.append({"kind": "pty-head", "text": "abc\n"})
     if tier == "thorough":
         cs = cs * 5
@@ -345,14 +348,35 @@ def real_case(c):
         kw["in_stream"] = False
         kw["watchers"] = [Responder(pattern=r"Q\?", response="yes\n")]
         cmd = [sys.executable, "-u", "-c", "print('Q?'); x=input(); print('got', x)"]
+    elif kind == "respond-no-newline":
+        kw["in_stream"] = False
+        kw["watchers"] = [Responder(pattern=r"Q\?", response="yes")]
+        cmd = [sys.executable, "-u", "-c", "import sys; print('Q?'); x=sys.stdin.read(3); print('got', x)"]
+    elif kind == "open-pipe":
+        rfd, wfd = os.pipe()
+        os.write(wfd, b"abc")                     # write end stays open: no EOF on the input stream
+        kw["in_stream"] = os.fdopen(rfd, "r") if c["buffered"] else os.fdopen(rfd, "rb", 0)
+        cmd = "head -c 3"
     elif kind == "pty-head":
         kw["in_stream"] = io.StringIO(c["text"])
         kw["pty"] = True
         cmd = "head -n1"
-    r = rc.run_real(cmd, bound=30.0, **kw)
+    r = rc.run_real(cmd, bound=(6.0 if c.get("buffered") else 15.0) if kind in ("respond-no-newline", "open-pipe")
+                    else 30.0, **kw)
+    if kind == "open-pipe":
+        os.close(wfd)
+        try:
+            kw["in_stream"].close()
+        except OSError:
+            pass
     case = {k: (v if len(str(v)) < 60 else str(v)[:60] + "...") for k, v in c.items()}
+    if r["hang"] and kind == "open-pipe" and c["buffered"]:
+        return {"case": case, "finding": "F-C13b",
+                "what": "3 characters available on a buffered text input stream over an open pipe: only the first "
+                        "read is forwarded, the rest sits in the TextIOWrapper buffer while select() reports the "
+                        "descriptor not ready; head -c 3 never completes"}
     if r["hang"]:
-        return {"case": case, "what": "run() did not end within 30 s (child never saw EOF?): %s" % r["hang_what"]}
+        return {"case": case, "what": "run() did not end in time (child never got its input / EOF?): %s" % r["hang_what"]}
     if r["outcome"] != "Result":
         return {"case": case, "what": "unexpected outcome %s" % r["outcome"]}
     out = r["stdout"]
@@ -370,8 +394,10 @@ def real_case(c):
         return None if out.strip() == want else {"case": case, "what": {"want": want, "got": out.strip()}}
     if kind == "head":
         return None if out == c["text"][:5] else {"case": case, "what": {"want": c["text"][:5], "got": out[:40]}}
-    if kind == "respond":
+    if kind in ("respond", "respond-no-newline"):
         return None if "got yes" in out else {"case": case, "what": {"got": out}}
+    if kind == "open-pipe":
+        return None if out == "abc" else {"case": case, "what": {"want": "abc", "got": out}}
     if kind == "pty-head":
         return None if out.count("abc") >= 1 and r["exited"] == 0 else {"case": case, "what": {"got": out}}
 
